@@ -234,11 +234,16 @@ def _mkval(v):
     return v["d"] if v.get("c") is None else (v["d"], dec(v["c"]))
 
 
-def _apply(fn, vals):
-    """apply fn twice to fresh copies of every value; record the result and the input's context afterwards"""
+def _apply(fn, vals, watch):
+    """apply fn twice to fresh copies of every value; record the result and the input's context afterwards.
+    `watch()` is the current encoding of the variables' var_contexts: the first time it differs from its initial
+    value the case is abandoned (the oracle reports the changed var_context) -- a variable that shares its
+    var_context with the contexts it produces can grow exponentially under repeated application."""
     outs = []
+    before = watch()
     for v in vals:
         reps = []
+        outs.append(reps)
         for _ in range(2):
             x = _mkval(v)
             try:
@@ -249,7 +254,8 @@ def _apply(fn, vals):
             if isinstance(x, tuple):
                 o["in_after"] = enc(x[1])
             reps.append(o)
-        outs.append(reps)
+            if watch() != before:
+                return outs
     return outs
 
 
@@ -280,7 +286,7 @@ def run_impl(case):
                 names.append(enc(v.name))
             except Exception as e:
                 names.append({"e": exc_name(e)})
-        outs = _apply(_seq_fn(vars_), case["vals"])
+        outs = _apply(_seq_fn(vars_), case["vals"], lambda: [enc(v.var_context) for v in vars_])
         res["S"] = {"vcs": before, "outs": outs, "vcs_after": [enc(v.var_context) for v in vars_], "names": names}
     # Compose of (fresh copies of) the same variables
     try:
@@ -295,7 +301,7 @@ def run_impl(case):
             nm = enc(comp.name)
         except Exception as e:
             nm = {"e": exc_name(e)}
-        outs = _apply(comp, case["vals"])
+        outs = _apply(comp, case["vals"], lambda: enc(comp.var_context))
         res["C"] = {"vcs": [before], "outs": outs, "vcs_after": [enc(comp.var_context)], "names": [nm]}
     return res
 
